@@ -489,11 +489,17 @@ def run_impl(c, rng):
         picks = []; draws = []
 
         def choice(a, size=None):
-            v = np.array([rng.randrange(a) for _ in range(size[0])], dtype=int)
+            if c.get("_picks") is not None:                  # replay of a stored case
+                v = np.array([c["_picks"].pop(0) for _ in range(size[0])], dtype=int)
+            else:
+                v = np.array([rng.randrange(a) for _ in range(size[0])], dtype=int)
             picks.extend(int(t) for t in v); return v
 
         def uniform(lo, hi, size=None):
-            v = np.array([rng.choice([0.0, 0.5, rng.random(), rng.random(), math.nextafter(1.0, 0.0)]) for _ in range(size[0])])
+            if c.get("_draws") is not None:
+                v = np.array(c["_draws"].pop(0), dtype=float)
+            else:
+                v = np.array([rng.choice([0.0, 0.5, rng.random(), rng.random(), math.nextafter(1.0, 0.0)]) for _ in range(size[0])])
             draws.append([float(t) for t in v]); return v
         clip = c["mode"] in ("near", "pick")
         nearest = c["mode"] in ("near", "randnear")
@@ -505,7 +511,11 @@ def run_impl(c, rng):
         rec = []
 
         def shuffle(l):
-            rng.shuffle(l); rec.append([float(v) for v in l])
+            if c.get("_new") is not None:
+                l[:] = list(c["_new"])
+            else:
+                rng.shuffle(l)
+            rec.append([float(v) for v in l])
         with Patch(shuffle=shuffle):
             if c["via"] == "unique":
                 r = call(lambda v: C.unique(v, list(c["full"])))
@@ -1000,7 +1010,7 @@ def run_cases(cases_rng):
 
 
 def describe(c, res, line, rep, extra):
-    d = {k: v for k, v in c.items() if k not in ("xin", "kinds")}
+    d = {k: v for k, v in c.items() if k not in ("xin", "kinds") and not k.startswith("_")}
     d["request"] = line
     d["impl"] = res
     d["model"] = rep
@@ -1130,17 +1140,12 @@ def replay(path):
         c["index"] = tuple(c["index"])
     c["kinds"] = (c.get("kind") or "list",)
     # the recorded draws are replayed in order
-    picks = list(case.get("picks", [])); draws = [list(unj(d)) for d in case.get("draws", [])]; new = unj(case.get("new", []))
-
-    class R(_random.Random):
-        pass
-    rng = _random.Random(0)
     if c["op"] == "bounded":
-        rng.randrange = lambda a, _p=picks: _p.pop(0)
-        flat = [u for d in draws for u in d]
-        rng.choice = lambda seq, _f=flat: _f.pop(0)
+        c["_picks"] = [int(p) for p in case.get("picks", [])]
+        c["_draws"] = [list(unj(d)) for d in case.get("draws", [])]
     if c["op"] == "unique":
-        rng.shuffle = lambda l, _n=new: l.__setitem__(slice(None), _n)
+        c["_new"] = list(unj(case.get("new", [])))
+    rng = _random.Random(0)
     recs, lines, replies = run_cases([(c, rng)])
     findings = []; hist = {}
     judge(recs, lines, replies, findings, hist, [])
